@@ -9,7 +9,7 @@ from mc.vloop import World
 
 DATA = b"ab\r\ncdef\nx12;gh\r\n\r\nij\n\nx3;klmnopqr\r\nstuvwxyz0123456789"
 # short streams: the whole stream fits in two short reads, so a read is completed while the EOF is processed
-SHORT = [b"abcd\nx\n", b"abc\r\nx1;\r\n\r\ny"]
+SHORT = [b"abcd\nx\n", b"abc\r\nx1;\r\n\r\ny", b""]
 RX_BLANK = re.compile(rb"\r?\n\r?\n")
 RX_TOK = re.compile(rb"x[0-9]+;")
 
@@ -116,6 +116,78 @@ def run(ch, prog, chunk, bytewise=False, data=None):
                     results.append(("ok", r, None, st["pos"], s.closed()))
         errs = [x for x in w.logs.records if x[1] in ("ERROR", "CRITICAL")]
         return results, errs
+
+
+SMALL_CFG = [(10, 9), (12, 8), (10, None), (9, 4)]      # (max_buffer_size, explicit read_chunk_size)
+
+
+def run_small(ch, sizes, kinds, mbs, chunk):
+    """A consumer reads a 60-byte stream in fixed pieces of <= max_buffer_size // 2 through a stream with a tiny
+    max_buffer_size and a close callback, returning to the loop between reads: whatever the arrival pattern, every
+    read is satisfiable within the limit, so each returns exactly the next bytes and the stream stays open."""
+    from tornado.iostream import IOStream
+    data = DATA
+    with World() as w:
+        sock = w.socket()
+        s = IOStream(sock, max_buffer_size=mbs, read_chunk_size=chunk)
+        closed_cb = []
+        s.set_close_callback(lambda: closed_cb.append(1))
+        st = {"pos": 0}
+        eff = min(chunk or 65536, mbs // 2)
+
+        def deliver():
+            rest = len(data) - st["pos"]
+            if rest <= 0:
+                return False
+            opts = []
+            for c in (rest, 1, eff, mbs + 1):
+                if 0 < c <= rest and c not in opts:
+                    opts.append(c)
+            k = opts[ch.choose(len(opts), "seg")]
+            sock.feed(data[st["pos"]:st["pos"] + k])
+            st["pos"] += k
+            w.pump()
+            return True
+        p = 0
+        i = 0
+        problems = []
+        while p + sizes[i % len(sizes)] <= len(data):
+            n = sizes[i % len(sizes)]
+            kind = kinds[i % len(kinds)]
+            while st["pos"] < len(data) and ch.choose(2, "pre-deliver") == 0:
+                deliver()           # default: the peer is ahead of the reader
+            buf = bytearray(n)
+            try:
+                f = s.read_bytes(n) if kind == "rb" else s.read_into(buf)
+            except Exception as e:
+                problems.append(("raised", "read %d (%s %d at offset %d) raised %s" % (i, kind, n, p, type(e).__name__)))
+                break
+            w.pump()
+            while not f.done() and deliver():
+                pass
+            if not f.done():
+                problems.append(("pending", "read %d (%s %d at offset %d) pending with the whole stream sent" % (i, kind, n, p)))
+                break
+            if f.exception() is not None:
+                problems.append(("spurious-failure:" + type(getattr(f.exception(), "real_error", None) or f.exception()).__name__,
+                                 "read %d (%s %d at offset %d) failed with %r (real_error %r); buffered %d, "
+                                 "max_buffer_size %d" % (i, kind, n, p, f.exception(), getattr(f.exception(), "real_error", None),
+                                                        s._read_buffer_size, mbs)))
+                break
+            got = f.result() if kind == "rb" else bytes(buf[:f.result()])
+            if got != data[p:p + n]:
+                problems.append(("contract", "read %d (%s %d at offset %d) returned %r, stream has %r" % (i, kind, n, p, got, data[p:p + n])))
+                break
+            if s._read_buffer_size > mbs:
+                problems.append(("over-max_buffer_size", "%d bytes buffered, limit %d" % (s._read_buffer_size, mbs)))
+            p += n
+            i += 1
+            w.pump()            # the consumer yields to the loop between reads
+        if not problems and (s.closed() or closed_cb):
+            problems.append(("closed-early", "stream closed after %d reads although the peer never closed" % i))
+        errs = [x for x in w.logs.records if x[1] in ("ERROR", "CRITICAL")]
+        s.close()
+        return problems, errs, i
 
 
 def judge(prog, results, data=None):
@@ -259,7 +331,8 @@ class C11(Check):
              "delimiter/match, max_bytes, nothing beyond what was delivered), must succeed whenever the "
              "stream satisfies it, and nothing stays pending after EOF.")
     technique = "stateless deviation-bounded schedule exploration (DevEx) of the real code with a stream-only reference"
-    assumptions = ["FakeSocket models readiness level-triggered like epoll", "default max_buffer_size"]
+    assumptions = ["FakeSocket models readiness level-triggered like epoll", "default max_buffer_size, except in the small-buffer family: 60-byte stream read in fixed pieces of <= max_buffer_size // 2 "
+                   "with max_buffer_size 9..12, explicit read_chunk_size above and below half of it, a close callback installed"]
 
     def params(self, tier):
         # (max program length, deviation bound, chunk)
@@ -280,9 +353,41 @@ class C11(Check):
         for di in range(len(SHORT)):
             for s in range(8):
                 parts.append((2 if tier == "quick" else 3, 2, 4, s, 8, di))
+        for ci in range(len(SMALL_CFG)):
+            for kinds in (("rb",), ("ri",), ("rb", "ri")):
+                parts.append(("small", ci, kinds, 2 if tier == "quick" else 3))
         return parts
 
+    def run_small_partition(self, part, st):
+        import itertools
+        _, ci, kinds, D = part
+        mbs, chunk = SMALL_CFG[ci]
+        top = mbs // 2
+        for k in (1, 2, 3):
+            for sizes in itertools.product(range(max(1, top - 3), top + 1), repeat=k):
+                if k > 1 and len(set(sizes)) == 1:
+                    continue
+
+                def on_exec(ch, obs, sizes=sizes):
+                    problems, errs, nreads = obs
+                    st.ev()
+                    st.transitions += len(ch.trace)
+                    key = h(("small", ci, kinds, sizes, tuple(ch.choices())))
+                    st.states.add(key)
+                    st.nontrivial.add(key)
+                    st.outcome(h(("small", nreads, bool(problems))))
+                    for sig, msg in problems:
+                        st.violation("small-buffer:" + sig, "max_buffer_size=%d read_chunk_size=%r reads %r x %r choices %r: %s"
+                                     % (mbs, chunk, sizes, kinds, ch.choices(), msg),
+                                     {"small": [ci, list(kinds), list(sizes)], "choices": ch.choices()})
+                    if errs and not problems:
+                        st.violation("small-buffer:error-log", "log %r" % (errs[:2],),
+                                     {"small": [ci, list(kinds), list(sizes)], "choices": ch.choices()})
+                devex.explore(lambda ch: run_small(ch, sizes, kinds, mbs, chunk), bound=D, on_exec=on_exec)
+
     def run_partition(self, part, tier, st):
+        if part[0] == "small":
+            return self.run_small_partition(part, st)
         L, D, chunk, s, nsl = part[:5]
         data = SHORT[part[5]] if len(part) > 5 else None
         progs = list(programs(L))
@@ -330,6 +435,11 @@ class C11(Check):
             st.sample({"program": [repr(OPS[i]) for i in prog], "default_schedule_results": repr(a[0])[:300]})
 
     def replay(self, case):
+        if case.get("small"):
+            ci, kinds, sizes = case["small"]
+            mbs, chunk = SMALL_CFG[ci]
+            return "max_buffer_size=%d read_chunk_size=%r sizes %r kinds %r\n%r" % (
+                mbs, chunk, sizes, kinds, run_small(devex.Chooser(case["choices"]), tuple(sizes), tuple(kinds), mbs, chunk))
         prog = tuple(case["prog"])
         data = SHORT[case["short"]] if case.get("short") is not None else None
         if case["choices"] == "bytewise":
